@@ -243,7 +243,16 @@ def install():
 
     @functools.wraps(real_getitem)
     def getitem_wrapper(self, i):
-        r = real_getitem(self, i)
+        # a subset shares its parent's type tables: it inherits the known-finding mechanism flag (see extend_types_wrapper)
+        flagged = getattr(self, "_vmon_pair_merge", False)
+        contracts.PAIR_MERGE_CONTEXT[0] = contracts.PAIR_MERGE_CONTEXT[0] or flagged
+        try:
+            r = real_getitem(self, i)
+        finally:
+            if flagged:
+                contracts.PAIR_MERGE_CONTEXT[0] = False
+        if flagged:
+            r._vmon_pair_merge = True
         emit("getitem", n_self=len(self), n_out=len(r))
         contracts.check_atoms_consistent(r, "Atoms.__getitem__(result)")
         return r
